@@ -182,6 +182,11 @@ fn response(f: &F, level: log::Level, ri: usize) -> F {
     }
 }
 
+/// Names of the appenders: neighbours differ only in letter case ("app0", "App0", "app1", "App1") - different appenders.
+fn app_name(ai: usize) -> String {
+    format!("{}pp{}", if ai % 2 == 0 { "a" } else { "A" }, ai / 2)
+}
+
 pub fn check(case: &Case, obs: &mut Obs) -> CaseResult {
     let logs = Arc::new(Mutex::new(Logs::default()));
     let mut b = Config::builder();
@@ -212,9 +217,9 @@ pub fn check(case: &Case, obs: &mut Obs) -> CaseResult {
         } else {
             Box::new(fa)
         };
-        b = b.appender(ab.build(format!("app{}", ai), appender));
+        b = b.appender(ab.build(app_name(ai), appender));
     }
-    for (run, single) in crate::glue::runs_by_style((0..case.apps.len()).map(|ai| format!("app{}", ai)).collect(), case.style.rotate_left(41)) {
+    for (run, single) in crate::glue::runs_by_style((0..case.apps.len()).map(app_name).collect(), case.style.rotate_left(41)) {
         root = if single { root.appender(run[0].clone()) } else { root.appenders(run) };
     }
     if case.handler_panicked_before {
@@ -425,7 +430,92 @@ fn sweep(run: &Run) {
     }
 }
 
+/// Several threads log through one logger at the same time; each appender takes a moment per record. Whoever is inside
+/// an appender, a record of another thread is decided by the chain alone and delivered once.
+#[derive(Serialize, Deserialize, Debug, Clone)]
+pub struct Concurrent {
+    pub threads: u8,
+    pub records: u8,
+    /// per appender: reject records whose number is divisible by this (0 = no filter)
+    pub reject_every: Vec<u8>,
+}
+
+#[derive(Debug)]
+struct SlowCounting {
+    seen: Arc<Mutex<Vec<(usize, String)>>>,
+    app: usize,
+}
+impl Append for SlowCounting {
+    fn append(&self, r: &log::Record) -> anyhow::Result<()> {
+        std::thread::sleep(std::time::Duration::from_micros(150));
+        self.seen.lock().unwrap().push((self.app, r.args().to_string()));
+        Ok(())
+    }
+    fn flush(&self) {}
+}
+#[derive(Debug)]
+struct RejectEvery(u8);
+impl Filter for RejectEvery {
+    fn filter(&self, r: &log::Record) -> Response {
+        let n: usize = r.args().to_string().rsplit('-').next().and_then(|x| x.parse().ok()).unwrap_or(1);
+        if self.0 != 0 && n % self.0 as usize == 0 {
+            Response::Reject
+        } else {
+            Response::Neutral
+        }
+    }
+}
+
+pub fn check_concurrent(c: &Concurrent, obs: &mut Obs) -> CaseResult {
+    let seen = Arc::new(Mutex::new(vec![]));
+    let mut b = Config::builder();
+    let mut root = Root::builder();
+    for (ai, k) in c.reject_every.iter().enumerate() {
+        let mut ab = Appender::builder();
+        if *k != 0 {
+            ab = ab.filter(Box::new(RejectEvery(*k)));
+        }
+        b = b.appender(ab.build(app_name(ai), Box::new(SlowCounting { seen: seen.clone(), app: ai })));
+        root = root.appender(app_name(ai));
+    }
+    let logger = Arc::new(log4rs::Logger::new(b.build(root.build(log::LevelFilter::Trace)).map_err(|e| Failure { sig: "C03:config".into(), msg: e.to_string() })?));
+    let barrier = Arc::new(std::sync::Barrier::new(c.threads as usize));
+    let hs: Vec<_> = (0..c.threads)
+        .map(|t| {
+            let (logger, barrier, n) = (logger.clone(), barrier.clone(), c.records);
+            std::thread::spawn(move || {
+                barrier.wait();
+                for i in 0..n {
+                    with_record("t", log::Level::Info, &format!("{}-{}", t, i), |r| logger.log(r));
+                }
+            })
+        })
+        .collect();
+    for h in hs {
+        if h.join().is_err() {
+            return fail("C03:panic", "a logging thread panicked");
+        }
+    }
+    let seen = seen.lock().unwrap().clone();
+    for (ai, k) in c.reject_every.iter().enumerate() {
+        for t in 0..c.threads {
+            for i in 0..c.records {
+                let msg = format!("{}-{}", t, i);
+                let want = if *k != 0 && i as usize % *k as usize == 0 { 0 } else { 1 };
+                let got = seen.iter().filter(|(a, m)| *a == ai && *m == msg).count();
+                obs.sub_evals += 1;
+                ensure!(got == want, "C03:delivery", "{} threads logging at the same time: appender {} (rejects every {}th record) saw record {:?} {} time(s), its chain says {}", c.threads, ai, k, msg, got, want);
+            }
+        }
+    }
+    obs.nontrivial = true;
+    obs.class("threads-inside-one-appender-at-the-same-time");
+    Ok(())
+}
+
 pub fn run(run: &Run) {
+    run.run_replays::<Concurrent>("concurrent", &check_concurrent);
+    run.search("concurrent", run.tier.pick(24, 600), (2u8..=6, 10u8..=40, prop::collection::vec(prop_oneof![Just(0u8), 2u8..5], 1..=3)).prop_map(|(threads, records, reject_every)| Concurrent { threads, records, reject_every }), &check_concurrent);
     run.run_replays::<Case>("chains", &check);
     sweep(run);
     run.search("chains", run.tier.pick(20_000, 500_000), strategy(), &check);
@@ -434,6 +524,7 @@ pub fn run(run: &Run) {
 pub fn replay(part: &str, case: serde_json::Value) -> Option<CaseResult> {
     match part {
         "chains" | "chains-exhaustive" => Some(check(&serde_json::from_value(case).ok()?, &mut Obs::default())),
+        "concurrent" => Some(check_concurrent(&serde_json::from_value(case).ok()?, &mut Obs::default())),
         "threshold-table" => Some(check_truth(&serde_json::from_value(case).ok()?, &mut Obs::default())),
         _ => None,
     }
@@ -442,7 +533,7 @@ pub fn replay(part: &str, case: serde_json::Value) -> Option<CaseResult> {
 pub fn meta() -> EvidenceMeta {
     EvidenceMeta {
         level: "exploration",
-        rule: "cases = 1-4 appenders on the root, each with a chain of 0-5 filters (scripted Accept/Neutral/Reject that log their consultation, real ThresholdFilters at generated levels wrapped to observe the consultation) and a scripted outcome (Ok / Err(tag)), root level generated, 1-5 records at generated levels; plus exhaustive sweeps (121 chains <= 4 x failing/healthy x position x companion; threshold truth table). Oracle per appender independently: filters consulted = chain prefix up to and including the first non-Neutral answer, delivered iff that answer is Accept or none exists, another appender's rejection/error never changes this, error handler receives exactly the tags of failing delivered appenders once each; no consultation for records the logger does not admit. Filters may answer by what the record says (message-dependent Accept/Neutral/Reject: records from one call site with one level do not share a verdict); failing appenders fail with plain errors or I/O errors of eight kinds (BrokenPipe, Interrupted, WouldBlock, ... bare or wrapped in context). An appender may be a whole nested log4rs::Logger, or a foreign log::Log whose enabled() refuses everything while its log() records (attachment and chain alone decide delivery). In 15% of the cases the error handler panics after recording the error: every appender whose chain delivers has been served all the same. Chains may hold the library's ThresholdFilter unwrapped; in 30% of the cases every failing appender fails with the very same std::io::Error. Filters and appender references are attached through a mix of singular and bulk builder calls; in 15% of the cases the error handler of another logger panicked earlier on the thread (caught). non-trivial = >=2 appenders with different verdicts, or a failing appender before a healthy one, or an Accept before a Reject in one chain".into(),
+        rule: "cases = 1-4 appenders on the root, each with a chain of 0-5 filters (scripted Accept/Neutral/Reject that log their consultation, real ThresholdFilters at generated levels wrapped to observe the consultation) and a scripted outcome (Ok / Err(tag)), root level generated, 1-5 records at generated levels; plus exhaustive sweeps (121 chains <= 4 x failing/healthy x position x companion; threshold truth table). Oracle per appender independently: filters consulted = chain prefix up to and including the first non-Neutral answer, delivered iff that answer is Accept or none exists, another appender's rejection/error never changes this, error handler receives exactly the tags of failing delivered appenders once each; no consultation for records the logger does not admit. Filters may answer by what the record says (message-dependent Accept/Neutral/Reject: records from one call site with one level do not share a verdict); failing appenders fail with plain errors or I/O errors of eight kinds (BrokenPipe, Interrupted, WouldBlock, ... bare or wrapped in context). Appender names of neighbours differ only in letter case. Part concurrent: 2-6 threads log 10-40 records each through one logger whose appenders take a moment per record and reject every k-th record: every record is delivered to every appender exactly as its chain says. An appender may be a whole nested log4rs::Logger, or a foreign log::Log whose enabled() refuses everything while its log() records (attachment and chain alone decide delivery). In 15% of the cases the error handler panics after recording the error: every appender whose chain delivers has been served all the same. Chains may hold the library's ThresholdFilter unwrapped; in 30% of the cases every failing appender fails with the very same std::io::Error. Filters and appender references are attached through a mix of singular and bulk builder calls; in 15% of the cases the error handler of another logger panicked earlier on the thread (caught). non-trivial = >=2 appenders with different verdicts, or a failing appender before a healthy one, or an Accept before a Reject in one chain".into(),
         assumptions: vec!["filters and appenders are harness implementations (plus the real ThresholdFilter)".into()],
         mutants_caught: vec![],
     }
